@@ -250,12 +250,17 @@ func TestEnumerate(t *testing.T) {
 		if depth > 0 {
 			s := string(buf)
 			count++
-			ok, err := checkIP(s)
-			if err == nil {
-				var pok bool
-				pok, err = checkIPPort(s)
-				ok = ok || pok
-			}
+			var ok bool
+			err := vp.Guard(func() error {
+				var err error
+				ok, err = checkIP(s)
+				if err == nil {
+					var pok bool
+					pok, err = checkIPPort(s)
+					ok = ok || pok
+				}
+				return err
+			})
 			if err != nil {
 				vp.Fail(t, "c02.ip", Case{S: vp.S(s)}, err)
 				failed = true
